@@ -108,7 +108,7 @@ def trinomials(W, N):
         for m in ((n - 1) * W + 1, (n - 1) * W + W // 2 + 1, n * W - 1):
             if m % 8 == 0:
                 m -= 1
-            for k in (1, 2, W - 1, m - W, m - W - 1, m - 2 * W if m >= 2 * W + 1 else 0, m // 2):
+            for k in (1, W - 1, m - W, m - W - 1, m - 2 * W if m >= 2 * W + 1 else 0, m // 2):
                 if 0 < k and m - k >= W and (m + W - 1) // W == n:
                     out.append((m, k))
     return list(dict.fromkeys(out))
